@@ -82,14 +82,46 @@ NEEDS.update({
  "C19D":("link commit removes the symlink before returning a size/integrity mismatch","content already linked under another key, second link with a wrong declaration: the first entry stops reading"),
  "C20C":("AsyncWriter::close retries forever on NotFound","the writer's temp file disappears between open and commit (open, write, clear, commit): commit hangs"),
  "C20D":("read_sync pre-allocates its buffer from the size recorded in the index","raw index insert with a size above isize::MAX, then read_sync: capacity overflow panic"),
+ "C01E":("sync checked copy streams the verified reader into a destination opened without truncation","copy_sync/copy_hash_sync onto an existing destination longer than the entry: Ok, but old tail left behind"),
+ "C01F":("sync Reader builds its IntegrityChecker lazily on the first non-empty read","content file of a non-empty entry truncated to 0 bytes, then a sync streamed read / checked copy / hard link / reflink"),
+ "C02E":("async poll_flush takes the memory map: later chunks are written at file offset 0","async writer with a declared size <= 1 MiB, a flush between chunks, more chunks after it"),
+ "C03F":("async writer state after a dropped write future (see notes.md)","a write future dropped after one poll, then further writes and a commit (async writers)"),
+ "C04F":("tokio line stream rebuilt with try_unfold (fused after the first error)","tokio flavour + an index line that is not valid UTF-8 (torn inside a multi-byte character) followed by later appends"),
+ "C05E":("async commit appends the index record before the declared-size check","WriteOpts::size(n).open() with a different number of bytes streamed: SizeMismatch returned, record visible"),
+ "C06E":("sync bucket reader remembers per bucket how far it has parsed and reads only the appended tail","a process that looked at a bucket before it was damaged in place (same or greater length) looks again"),
+ "C06F":("listing skips a bucket whose last line contains \"integrity\":null, (unverified)","a torn or damaged last line that looks like a tombstone after a live record"),
+ "C07E":("sync index insert appends with write!() (four write calls per record)","two concurrent appenders to one bucket: records interleave (submitted against C05/C11/C16/C17 by four agents; it is a C07 break)"),
+ "C08E":("SyncWriter::commit returns Ok early when the key already maps to the computed integrity, before the declaration checks","sync keyed re-write of the key's current content with a wrong declared size or integrity"),
+ "C08F":("write_mapped delegates to the slice writer: no spill past the mapping","declared size <= 1 MiB smaller than the data: WriteZero / short data instead of SizeMismatch"),
+ "C09E":("index::delete hand-formats the tombstone without JSON escaping of the key","removing a key containing a quote, backslash or control character: the tombstone is ignored, the key stays"),
+ "C09F":("process-wide memo of tmp directories already created, never invalidated by clear","one process: write, clear, write again -> NotFound"),
+ "C10E":("ls() memoises parsed buckets per process, validated by file length only","a bucket changed to different content of the same length between two listings by one process"),
+ "C11E":("commit skips the index append when integrity, size and JSON metadata equal the live entry","re-commit of a key with identical content/metadata but different raw metadata or time"),
+ "C12E":("AsyncWriter::close uses persist_noclobber","write, damage the content file, re-write the same data: sync repairs, async keeps the damaged file"),
+ "C12F":("only the sync opens take the algorithm from a declared integrity","declared integrity of another algorithm than sha256, no explicit algorithm: sync Ok, async IntegrityError"),
+ "C13E":("commit removes the just-persisted content when the index insert fails","a failing system call in the index update while another entry shares the content (also submitted against C04)"),
+ "C13F":("bucket_entries_async stops at a damaged record instead of skipping it","a torn record from a short write + error, then a later successful write, read through the async API"),
+ "C14E":("sync keyed writer persists under the caller-declared integrity","sync open_sync commit rejected by the integrity check where the declared integrity names other stored content"),
+ "C14F":("write_mapped seeks to end of file instead of pos after the declared size is outgrown","declared size <= 1 MiB smaller than the data, one chunk straddling it, same data already stored under a key"),
+ "C15E":("sync close: persist_noclobber, then rewrite in place through fs::copy when lengths differ","a link_to symlink or a hard-linked extraction at that address, then a sync write of the same bytes: file outside the cache changed"),
+ "C15F":("thread-local memo of the last bucket path keyed by key only","the same key used in two cache directories back to back on one thread"),
+ "C16E":("finish_mapped no longer cuts the preallocated tail","declared-size writer writing fewer bytes than declared, re-writing stored data: data+zeros renamed over the good copy"),
+ "C17F":("insert_async no longer flushes after write_all","tokio flavour: the append is only queued when the call returns; the caller's next lookup/removal can overtake it"),
+ "C18E":("same-file shortcut hoisted ahead of verification in checked copy","hard_link to a destination, in-place damage, then checked copy to the same path returns Ok"),
+ "C18F":("hard_link_unchecked returns Ok on AlreadyExists when the destination has the same length","hard-link entry point onto an existing file of equal size and different bytes"),
+ "C19E":("same_file compares symlink_metadata","link_to a file, then any copy* back onto the linked path: the target is truncated"),
+ "C19F":("absolute_target folds '..' textually","target spelled through a directory symlink followed by '..': the stored link names the wrong path"),
+ "C20E":("poll_write returns a stale, larger write count","a write future dropped in flight, then write_all with a shorter buffer: panics 'mid > len'"),
+ "C20F":("bucket line parser uses split_at(64)","a valid-UTF-8 line with a multi-byte character across byte 64: every reader of that bucket panics"),
  "F8":("re-introduces repaired defect F8: the sync bucket reader treats a failing read as end of file","one EIO on a read of a bucket: stale or partial results returned as success"),
  "H1":("hand-written must-catch of DESIGN section 3: content copied straight onto the content path instead of renamed","any write: the content path is visible before it holds the data"),
 })
 
 rows=[]
-for d in sorted(glob.glob(V+'/seeded/C*/')):
+HAND={'F8':'C13','H1':'C03'}
+for d in sorted(glob.glob(V+'/seeded/C*/'))+[V+'/seeded/F8/',V+'/seeded/H1/']:
     name=os.path.basename(d.rstrip('/'))
-    prop=name[:3]
+    prop=HAND.get(name,name[:3])
     val=''
     try:
         val=[l for l in open(d+'validate.log', errors='replace') if l.startswith('RESULT')][-1].strip()
@@ -108,8 +140,9 @@ for d in sorted(glob.glob(V+'/seeded/C*/')):
     missed=[c for c,v in det.items() if v["exit"]==0]
     meta={"name":name,"breaks_property":prop,"change":what,"needs_to_manifest":needs,
           "confirmed_in_scratch_worktree":{"builds_in_3_flavours":"build=ok" in val,"baseline_38_tests_pass":"38 passed" in val,"demo_fails_with_change":"demo with mutant: test result: FAILED" in val,"demo_passes_without":"demo without: test result: ok" in val,"how":"tools/validate_mut.sh (scratch worktree under /tmp, removed afterwards)","raw":val},
+          "origin":"written by hand (no sub-agent, no separate demonstration: the checks are the demonstration)" if name in HAND else "fresh sub-agent given only the property text and a scratch worktree",
           "checks_run_against_it":det,"caught_by":caught,"not_caught_by":missed,
-          "how_run":"tools/trymut.sh: git -C /repo apply patch.diff; ./check <ID> --tier quick; git -C /repo checkout -- ."}
+          "how_run":"tools/trymut.sh: patch.diff applied to a scratch worktree of /repo's HEAD; VERIF_REPO=<worktree> ./check <ID> --tier quick; worktree reset"}
     json.dump(meta,open(d+'meta.json','w'),indent=1)
     rows.append((name,prop,what,caught,missed))
 with open(V+'/seeded/MATRIX.md','w') as f:
